@@ -178,6 +178,19 @@ CHECKS["C12"] = dict(
          "enumerates the finite index space completely. Trusted: z3, the stub hasher/store.",
     design="3 (C12)", technique=CH)
 
+CHECKS["C13"] = dict(
+    text="Bounded symbolic execution of HashClient's failover machine with scripted per-server clients, a virtual clock and a "
+         "table-driven hasher reproducing the real rendezvous placement: the event of every step (get on a key of server i, "
+         "set_many, server i starts/stops failing), the clock advance before it, retry_timeout < dead_timeout and the "
+         "recovery traffic gap are symbolic. Checked over the contact log: never 3 contacts of a failing server inside "
+         "retry_timeout nor retry_attempts+3 inside dead_timeout, no eviction on a single failure, healthy servers never "
+         "bypassed, keys of an evicted server answered by the others, set_many/get agreement, only the injected error or "
+         "'all servers down' escapes (nothing with ignore_exc), rotation and ownership restored by steady healthy traffic.",
+    note="Bound: 2 servers (thorough 3), 3-event histories over the full alphabet and 5-event ones over two reduced alphabets, "
+         "timeouts <= 3 units. The recovery bound is 2*(dead_timeout + traffic gap) from the last eviction (the code compares "
+         "with strict >). Trusted: z3, CrossHair int model, the stub client/hasher table.",
+    design="3 (C13)", technique=CH)
+
 NOT_YET = {}
 
 NA_REASON_PENDING = "check not built yet in this session (planned; see DESIGN.md section 3)"
